@@ -200,11 +200,12 @@ def ref_loop(m, t, *, min_iter=0, max_iter=100, tol=1e-10, offset=0, failures='r
     return out
 
 
-def call_outcome(fn, *args, **kwargs):
-    """Run a solver call, return (result label, cause label, return value)."""
+def call_outcome(fn, *args, _ambient='ignore', **kwargs):
+    """Run a solver call, return (result label, cause label, return value). `_ambient` is the warnings filter in force
+    around the call (what the caller's process has set up, e.g. `python -W error`): the solver installs its own."""
     try:
         with warnings.catch_warnings():
-            warnings.simplefilter('ignore')
+            warnings.simplefilter(_ambient)
             r = fn(*args, **kwargs)
         return (str(r) if isinstance(r, (bool, np.bool_)) else 'value', 'none', r)
     except Exception as e:
